@@ -152,6 +152,9 @@ class FoldedData:
         self._dm = dm
         self._accel = accel
         self._check_input()
+        # DM and period the cube was folded with: all shifts are relative to these
+        self._dm_ref = dm
+        self._period_ref = period
         self._tph_shifts = np.zeros(self.nsubints, dtype=np.int32)
         self._fph_shifts = np.zeros(self.nsubbands, dtype=np.int32)
 
@@ -269,15 +272,7 @@ class FoldedData:
         dm : float
             The new DM to dedisperse to
         """
-        dmdelays = self._get_dmdelays(dm)
-        for isubint in range(self.nsubints):
-            for isubband in range(self.nsubbands):
-                self.data[isubint][isubband] = np.roll(
-                    self.data[isubint][isubband],
-                    -dmdelays[isubband],
-                    axis=0,
-                )
-        self._dm = dm
+        self._retune(dm, self.period)
 
     def update_period(self, period: float) -> None:
         """Install a new folding period in the data cube.
@@ -287,54 +282,57 @@ class FoldedData:
         period : float
             The new period to fold with
         """
-        pdelays = self._get_pdelays(period)
+        self._retune(self.dm, period)
+
+    def _retune(self, dm: float, period: float) -> None:
+        """Rotate every profile to the shifts implied by (dm, period).
+
+        The target shifts only depend on (dm, period) and on the values the cube was
+        folded with; the profiles are rolled by the difference to the shifts that are
+        already applied, so the result does not depend on earlier updates.
+        """
+        fph_shifts = self._get_dmdelays(dm, period)
+        tph_shifts = self._get_pdelays(period)
+        dmdelays = fph_shifts - self._fph_shifts
+        pdelays = tph_shifts - self._tph_shifts
         for isubint in range(self.nsubints):
             for isubband in range(self.nsubbands):
                 self.data[isubint][isubband] = np.roll(
                     self.data[isubint][isubband],
-                    -pdelays[isubint],
+                    -(dmdelays[isubband] + pdelays[isubint]),
                     axis=0,
                 )
+        self._fph_shifts = fph_shifts
+        self._tph_shifts = tph_shifts
+        self._dm = dm
         self._period = period
 
-    def _get_dmdelays(self, newdm: float) -> np.ndarray:
-        delta_dm = newdm - self.dm
-        if delta_dm == 0:
-            drifts = -1 * self._fph_shifts
-            self._fph_shifts.fill(0)
-            return drifts
+    def _get_dmdelays(self, newdm: float, period: float) -> np.ndarray:
+        delta_dm = newdm - self._dm_ref
         chan_width = self.header.foff * self.header.nchans / self.nsubbands
         freqs = (
             np.arange(self.nsubbands, dtype=np.float64) * chan_width + self.header.fch1
         )
-        tsamp = self.period / self.nbins
-        drifts = params.compute_dmdelays(
+        tsamp = period / self.nbins
+        return params.compute_dmdelays(
             freqs,
             delta_dm,
             tsamp,
             self.header.fch1,
             in_samples=True,
         )
-        bin_drifts = drifts - self._fph_shifts
-        self._fph_shifts = drifts
-        return bin_drifts
 
     def _get_pdelays(self, newperiod: float) -> np.ndarray:
         dbins = (
-            (newperiod / self._period - 1)
+            (newperiod / self._period_ref - 1)
             * self.header.tobs
             * self.nbins
-            / self._period
+            / self._period_ref
         )
         if dbins == 0:
-            drifts = -1 * self._tph_shifts
-            self._tph_shifts.fill(0)
-            return drifts
+            return np.zeros(self.nsubints, dtype=np.int32)
         drifts = np.arange(self.nsubints, dtype=np.float32)
-        drifts = np.round(drifts / (self.nsubints / dbins)).astype(np.int32)
-        bin_drifts = drifts - self._tph_shifts
-        self._tph_shifts = drifts
-        return bin_drifts
+        return np.round(drifts / (self.nsubints / dbins)).astype(np.int32)
 
     def _check_input(self) -> None:
         if not isinstance(self.header, Header):
